@@ -151,7 +151,7 @@ Theorem C04_pnpm_workspace :
   forall content root v,
   denote_yaml content root = Some v -> pnpm_shape_ok v = true -> pnpm_known v = false ->
   exists pkgs, walk_pnpm content root = Some pkgs /\ map YamlWalkProofs.nv pkgs = declared_pnpm v.
-Proof. exact pnpm_exact. Qed.
+Proof. exact pnpm_exact_nv. Qed.
 Print Assumptions C04_pnpm_workspace.
 
 (* GitHub Actions workflows and composite actions: for every document whose tree denotes a YAML value v, of the
